@@ -152,6 +152,46 @@ ENS(q_case == 2 ==> verif_errno == EINVAL)
 
 #ifdef GUARD_DIFF
 static int hwloc_apply_diff_one(hwloc_topology_t topology, hwloc_topology_diff_t diff, unsigned long flags) NEVER ;
+
+/* C16, "-N and roll back": hwloc_apply_diff_one replaced by a LOGGING contract (declared on a second symbol and used with
+ * --replace-call-with-contract hwloc_apply_diff_one/verif_apply_one): every call is appended to the ghost log, and the call
+ * number ap_fail_call (a ghost, any value) is the one that fails.  What one entry does to an object is not part of this clause. */
+/* the log: up to 6 calls, one scalar pair per call (scalar slots keep the frame of each call exact) */
+unsigned ap_n, ap_fail_call;
+hwloc_topology_diff_t ap_d0, ap_d1, ap_d2, ap_d3, ap_d4, ap_d5; unsigned long ap_f0, ap_f1, ap_f2, ap_f3, ap_f4, ap_f5;
+#define AP_SLOT(k, d, f) ENS(__CPROVER_old(ap_n) == (k) ? ((d) == diff && (f) == flags) : ((d) == __CPROVER_old(d) && (f) == __CPROVER_old(f)))
+static int verif_apply_one(hwloc_topology_t topology, hwloc_topology_diff_t diff, unsigned long flags)
+REQ(ap_n < 6)
+ASG(ap_n, ap_d0, ap_d1, ap_d2, ap_d3, ap_d4, ap_d5, ap_f0, ap_f1, ap_f2, ap_f3, ap_f4, ap_f5)
+ENS(ap_n == __CPROVER_old(ap_n) + 1)
+AP_SLOT(0, ap_d0, ap_f0) AP_SLOT(1, ap_d1, ap_f1) AP_SLOT(2, ap_d2, ap_f2) AP_SLOT(3, ap_d3, ap_f3) AP_SLOT(4, ap_d4, ap_f4) AP_SLOT(5, ap_d5, ap_f5)
+ENS(RET == 0 || RET == -1)
+ENS((RET == -1) == (__CPROVER_old(ap_n) == ap_fail_call))
+;
+#define AP_D(i) ((i) == 0 ? ap_d0 : (i) == 1 ? ap_d1 : (i) == 2 ? ap_d2 : (i) == 3 ? ap_d3 : (i) == 4 ? ap_d4 : ap_d5)
+#define AP_F(i) ((i) == 0 ? ap_f0 : (i) == 1 ? ap_f1 : (i) == 2 ? ap_f2 : (i) == 3 ? ap_f3 : (i) == 4 ? ap_f4 : ap_f5)
+/* lists of 0..3 entries */
+#define E1 diff
+#define E2 (diff->generic.next)
+#define E3 (diff->generic.next->generic.next)
+#define DFRESH(p) __CPROVER_is_fresh(p, sizeof(union hwloc_topology_diff_u))
+#define LEN(d) ((d) == NULL ? 0u : E2 == NULL ? 1u : E3 == NULL ? 2u : 3u)
+#define ENTRY(i) ((i) == 0 ? E1 : (i) == 1 ? E2 : E3)
+int hwloc_topology_diff_apply__rollback(hwloc_topology_t topology, hwloc_topology_diff_t diff, unsigned long flags)
+REQ(TOPO(topology) && LOADED(topology) && topology->adopted_shmem_addr == NULL)
+REQ(flags == 0 || flags == HWLOC_TOPOLOGY_DIFF_APPLY_REVERSE)
+REQ(diff == NULL || (DFRESH(diff) && (E2 == NULL || (DFRESH(E2) && (E3 == NULL || (DFRESH(E3) && E3->generic.next == NULL))))))
+REQ(ap_n == 0 && g_j < 3)
+ASG(verif_errno, ap_n, ap_d0, ap_d1, ap_d2, ap_d3, ap_d4, ap_d5, ap_f0, ap_f1, ap_f2, ap_f3, ap_f4, ap_f5)
+/* every entry applies: 0, each entry applied once, in order, with the caller's flags */
+ENS(ap_fail_call >= LEN(diff) ==> (RET == 0 && ap_n == LEN(diff)))
+ENS((ap_fail_call >= LEN(diff) && g_j < LEN(diff)) ==> (AP_D(g_j) == ENTRY(g_j) && AP_F(g_j) == flags))
+/* entry N = ap_fail_call+1 fails: -N, EINVAL, entries 1..N-1 re-applied with the reversed flag, nothing beyond N touched */
+ENS(ap_fail_call < LEN(diff) ==> (RET == -(int)(ap_fail_call + 1) && verif_errno == EINVAL && ap_n == 2 * ap_fail_call + 1))
+ENS((ap_fail_call < LEN(diff) && g_j <= ap_fail_call) ==> (AP_D(g_j) == ENTRY(g_j) && AP_F(g_j) == flags))
+ENS((ap_fail_call < LEN(diff) && g_j < ap_fail_call) ==> (AP_D(ap_fail_call + 1 + g_j) == ENTRY(g_j)
+                                                         && AP_F(ap_fail_call + 1 + g_j) == (flags ^ HWLOC_TOPOLOGY_DIFF_APPLY_REVERSE)))
+;
 /* q_case 1: adopted => EPERM (C19).  q_case 2 (C16): unknown apply flags => EINVAL; no entry is applied, frame = {errno}. */
 int hwloc_topology_diff_apply(hwloc_topology_t topology, hwloc_topology_diff_t diff, unsigned long flags)
 REQ(TOPO(topology) && LOADED(topology))
